@@ -4,7 +4,7 @@
 From Coq Require Import List NArith Bool Lia.
 From Verif Require Import Common.Util Bft.Tree Bft.Model Bft.Quorum Bft.ProofsTally Bft.ProofsChain Bft.ProofsSearch
   Bft.ProofsNode Bft.Safety Bft.ProofsWitness Bft.ProofsCommit Bft.ProofsOrder Bft.ProofsOrder2 Bft.ProofsOrder3 Bft.ProofsOrder4
-  Bft.ProofsLive Bft.ProofsVote Bft.ProofsJustified.
+  Bft.ProofsLive Bft.ProofsVote Bft.ProofsJustified Bft.ProofsFork.
 From Verif Require Compose.SyncOrder.
 Import ListNotations.
 Open Scope N_scope.
@@ -275,6 +275,14 @@ Proof.
   split; [exact (proj2 (proj2 (proj2 (proj2 Compose.SyncOrder.ex_wins_by_quality)))) | exact Compose.SyncOrder.select_is_sbetter_example].
 Qed.
 
+(* The FINALITY fork height.  The oracle runs `run_f F` (Bft/Model.v, second half): the engine and the node with
+   forkConfig.FINALITY = F as the code uses it (zero state below F, no walk below F, first round counted from F / L, the
+   checkpoint search starts at getCheckPoint(F), the node consults Select / CommitBlock / ShouldVote only at or after F);
+   the correspondence run draws F = 0, aligned and unaligned values.  Every theorem of this file is about FINALITY = 0,
+   which is exactly the F = 0 instance of what the oracle runs: *)
+Theorem oracle_run_at_finality_0_is_the_verified_model guard c w evs : run_f 0 guard c w evs = run guard c w evs.
+Proof. exact (run_f0 guard c evs w). Qed.
+
 Print Assumptions tally_order_independent.
 Print Assumptions incremental_eq_scratch.
 Print Assumptions import_history_invariants.
@@ -303,3 +311,4 @@ Print Assumptions select_is_the_order.
 Print Assumptions quality_stable_under_growth.
 Print Assumptions best_is_max_gives_sync_best_max.
 Print Assumptions best_is_max_gives_sync_best_max_example.
+Print Assumptions oracle_run_at_finality_0_is_the_verified_model.
